@@ -206,70 +206,3 @@ def c05c_pos(ex, st, x):
     if z3.is_app(t) and t.decl().kind() == z3.Z3_OP_SELECT and t.arg(1).sort() == z3.IntSort():
         return v_int(t.arg(1))
     raise Unsupported('c05c_pos: the value is not an element read from a sequence')
-
-
-def _eval_text(ex, st, text, env):
-    saved = st.locals
-    st.locals = dict(saved)
-    st.locals.update(env)
-    st.spec += 1
-    try:
-        return ex.ev(st, ast.parse(text, mode='eval').body)
-    finally:
-        st.spec -= 1
-        st.locals = saved
-
-
-@spec('c05c_nests_disjoint')
-def c05c_nests_disjoint(ex, st, seq):
-    """The nests of the sequence are pairwise disjoint, as ONE flat quantifier with a multi-pattern:
-    for all a != b, p, r in range: seq[a].list_of_alternatives[p] != seq[b].list_of_alternatives[r]."""
-    from pyvc.vals import fresh_name, v_bool, v_int, as_int
-    a, b, p, r = (z3.Int(fresh_name(n)) for n in ('da', 'db', 'dp', 'dr'))
-    n = as_int(_eval_text(ex, st, 'len(seq)', {'seq': seq}))
-    rng_ab = z3.And(a >= 0, a < n, b >= 0, b < n)
-    st.bound.append((a, z3.And(a >= 0, a < n)))
-    st.bound.append((b, z3.And(b >= 0, b < n)))
-    try:
-        la = as_int(_eval_text(ex, st, 'len(seq[i].list_of_alternatives)', {'seq': seq, 'i': v_int(a)}))
-        lb = as_int(_eval_text(ex, st, 'len(seq[i].list_of_alternatives)', {'seq': seq, 'i': v_int(b)}))
-        st.bound.append((p, z3.And(p >= 0, p < la)))
-        st.bound.append((r, z3.And(r >= 0, r < lb)))
-        try:
-            ea = _eval_text(ex, st, 'seq[i].list_of_alternatives[j]', {'seq': seq, 'i': v_int(a), 'j': v_int(p)})
-            eb = _eval_text(ex, st, 'seq[i].list_of_alternatives[j]', {'seq': seq, 'i': v_int(b), 'j': v_int(r)})
-        finally:
-            st.bound.pop()
-            st.bound.pop()
-    finally:
-        st.bound.pop()
-        st.bound.pop()
-    body = z3.Implies(z3.And(rng_ab, a != b, p >= 0, p < la, r >= 0, r < lb), ea.t != eb.t)
-    try:
-        return v_bool(z3.ForAll([a, b, p, r], body, patterns=[z3.MultiPattern(ea.t, eb.t)]))
-    except z3.Z3Exception:
-        return v_bool(z3.ForAll([a, b, p, r], body))
-
-
-@spec('c05c_nests_outside')
-def c05c_nests_outside(ex, st, seq, s):
-    """No alternative of a nest of the sequence is a member of the set s (one flat quantifier, pattern on the element)."""
-    from pyvc.vals import fresh_name, v_bool, v_int, as_int, as_bool_raw
-    a, p = z3.Int(fresh_name('oa')), z3.Int(fresh_name('op'))
-    n = as_int(_eval_text(ex, st, 'len(seq)', {'seq': seq}))
-    st.bound.append((a, z3.And(a >= 0, a < n)))
-    try:
-        la = as_int(_eval_text(ex, st, 'len(seq[i].list_of_alternatives)', {'seq': seq, 'i': v_int(a)}))
-        st.bound.append((p, z3.And(p >= 0, p < la)))
-        try:
-            ea = _eval_text(ex, st, 'seq[i].list_of_alternatives[j]', {'seq': seq, 'i': v_int(a), 'j': v_int(p)})
-            member = ex.truth(st, _eval_text(ex, st, 'x in s', {'x': ea, 's': s}))
-        finally:
-            st.bound.pop()
-    finally:
-        st.bound.pop()
-    body = z3.Implies(z3.And(a >= 0, a < n, p >= 0, p < la), z3.Not(member))
-    try:
-        return v_bool(z3.ForAll([a, p], body, patterns=[ea.t]))
-    except z3.Z3Exception:
-        return v_bool(z3.ForAll([a, p], body))
